@@ -204,8 +204,10 @@ static int read_file(const char *path, buf_t *out)
 }
 
 /* drain streams/datagrams into accumulators */
+static int g_no_drain;      /* set in a forked child that shares the sinks with its (draining) parent */
 static void sinks_drain(void)
 {
+    if (g_no_drain) return;
     for (int i = 0; i < nsinks; i++) {
         sink_t *s = &sinks[i];
         if (s->type == SK_STREAM) {
@@ -380,6 +382,37 @@ static int vec_equal(char *const *a, char *const *b)
     }
 }
 
+/* ------------------------------------------------------------------ libsched.so (optional, preloaded for C09/C10) */
+static struct {
+    int ok;
+    void (*mode)(int); int (*lib_found)(void); void (*on_deadlock)(void (*)(const char *));
+    void (*park_setup)(int); void (*park_thread_is_me)(void); int (*park_events)(void); int (*is_parked)(void);
+    void (*release)(void); int (*wait_parked)(volatile int *, int);
+    void (*coop_setup)(int, const int *, int); const char *(*coop_trace)(void); int (*coop_steps)(void); int (*deadlocked)(void);
+    void (*coop_thread_start)(int); void (*coop_thread_exit)(void); void (*coop_run)(void); void (*coop_point)(char);
+} S;
+static void sched_load(void)
+{
+    if (S.ok) return;
+#define L(f, n) *(void **) (&S.f) = dlsym(RTLD_DEFAULT, n)
+    L(mode, "sched_mode"); L(lib_found, "sched_lib_found"); L(on_deadlock, "sched_on_deadlock"); L(park_setup, "sched_park_setup");
+    L(park_thread_is_me, "sched_park_thread_is_me"); L(park_events, "sched_park_events"); L(is_parked, "sched_is_parked");
+    L(release, "sched_release"); L(wait_parked, "sched_wait_parked"); L(coop_setup, "sched_coop_setup"); L(coop_trace, "sched_coop_trace");
+    L(coop_steps, "sched_coop_steps"); L(deadlocked, "sched_deadlocked"); L(coop_thread_start, "sched_coop_thread_start");
+    L(coop_thread_exit, "sched_coop_thread_exit"); L(coop_run, "sched_coop_run"); L(coop_point, "sched_coop_point");
+#undef L
+    S.ok = S.mode != NULL && S.coop_run != NULL;
+}
+static void on_deadlock_exit(const char *what)
+{
+    ev_t e = {0};
+    ev_begin(&e, 'd'); ev_str(&e, what); ev_int(&e, (long long) getpid()); ev_end(&e); ev_free(&e);
+    _exit(77);
+}
+static volatile int g_coop_deadlock;
+static char g_coop_deadlock_msg[200];
+static void on_deadlock_note(const char *what) { g_coop_deadlock = 1; snprintf(g_coop_deadlock_msg, sizeof g_coop_deadlock_msg, "%s", what); }
+
 /* ------------------------------------------------------------------ exec call */
 typedef struct {
     int kind, ret, err, real, snap, callno, tno;
@@ -426,6 +459,7 @@ static int the_hook(int kind, const char *path, char *const argv[], char *const 
     call_t *c = cur_call;
     int saved_errno;
     if (g_markers) prctl(MARK, 2, 0, 0, 0);
+    if (S.ok && S.coop_point) S.coop_point('r');
     if (!c) { errno = ENOSYS; return -1; }
     c->hook_calls++;
     c->h1 = h1;
@@ -813,12 +847,16 @@ static void op_oracle(void)
 }
 
 /* ------------------------------------------------------------------ threads (C09) */
-typedef struct { call_t *calls; int n; pthread_barrier_t *bar; } thr_t;
+typedef struct { call_t *calls; int n; pthread_barrier_t *bar; int coop_index; volatile int *done; int park; } thr_t;
 static void *thr_main(void *p)
 {
     thr_t *t = p;
+    if (t->park) S.park_thread_is_me();
+    if (t->coop_index >= 0) S.coop_thread_start(t->coop_index);
     if (t->bar) pthread_barrier_wait(t->bar);
     for (int i = 0; i < t->n; i++) call_run(&t->calls[i]);
+    if (t->coop_index >= 0) S.coop_thread_exit();
+    if (t->done) *t->done = 1;
     return NULL;
 }
 
@@ -936,6 +974,91 @@ static void run_ops(op_t *ops, int nops)
             prctl(PR_SET_PDEATHSIG, 0);
             for (int k = 0; k < 500 && getppid() == mid; k++) usleep(2000);   /* wait for reparenting */
             break; }
+        case 'z': { /* cooperative schedule: args: nthreads, then (step, thread) pairs; followed by X ops carrying tno */
+            sched_load();
+            if (!S.ok) { ev_error("libsched not loaded"); break; }
+            int nt = arg_int(&op->a[0]);
+            int npairs = ((int) op->n - 1) / 2;
+            int *pairs = calloc(2 * npairs + 2, sizeof(int));
+            for (int k = 0; k < 2 * npairs; k++) pairs[k] = arg_int(&op->a[1 + k]);
+            thr_t *th = calloc(nt, sizeof *th);
+            int j = i + 1, total = 0;
+            while (j < nops && ops[j].code == 'X' && ops[j].n > 8) { j++; total++; }
+            for (int t = 0; t < nt; t++) th[t].calls = calloc(total ? total : 1, sizeof(call_t));
+            for (int k = i + 1; k < j; k++) {
+                int tno = arg_int(&ops[k].a[8]);
+                if (tno < 0 || tno >= nt) continue;
+                call_prepare(&th[tno].calls[th[tno].n++], &ops[k]);
+            }
+            g_coop_deadlock = 0;
+            S.on_deadlock(on_deadlock_note);
+            S.coop_setup(nt, pairs, npairs);
+            S.mode(2);
+            pthread_t *tids = calloc(nt, sizeof *tids);
+            for (int t = 0; t < nt; t++) { th[t].coop_index = t; pthread_create(&tids[t], NULL, thr_main, &th[t]); }
+            S.coop_run();
+            int dl = S.deadlocked();
+            { ev_t e = {0}; ev_begin(&e, 'z'); ev_str(&e, S.coop_trace()); ev_int(&e, S.coop_steps()); ev_int(&e, dl);
+              ev_str(&e, dl ? g_coop_deadlock_msg : ""); ev_end(&e); ev_free(&e); }
+            if (dl) { fflush(NULL); _exit(0); }
+            for (int t = 0; t < nt; t++) pthread_join(tids[t], NULL);
+            S.mode(0);
+            i = j - 1;
+            break; }
+        case 'J': { /* fork while a second thread is parked at its k-th lock/unlock event: args k depth; then X (thread's call, tno) X (child's call) */
+            sched_load();
+            if (!S.ok || i + 2 >= nops) { ev_error("libsched not loaded / bad J"); break; }
+            int k = arg_int(&op->a[0]), depth = arg_int(&op->a[1]);
+            thr_t tb; memset(&tb, 0, sizeof tb);
+            volatile int done = 0;
+            call_t cc;
+            tb.calls = calloc(1, sizeof(call_t)); tb.n = 1; tb.coop_index = -1; tb.done = &done; tb.park = 1;
+            call_prepare(&tb.calls[0], &ops[i + 1]);
+            call_prepare(&cc, &ops[i + 2]);
+            S.mode(1); S.park_setup(k);
+            pthread_t tid;
+            pthread_create(&tid, NULL, thr_main, &tb);
+            int parked = S.wait_parked(&done, 5000);
+            fflush(NULL);
+            pid_t pid = fork();
+            if (pid == 0) {
+                g_no_drain = 1;
+                /* the sinks stay the parent's: a really exec'd program must not drain them either */
+                for (int q = 0; q < nsinks; q++) if (sinks[q].fd >= 0) fcntl(sinks[q].fd, F_SETFD, FD_CLOEXEC);
+                S.on_deadlock(on_deadlock_exit);
+                prctl(PR_SET_PDEATHSIG, SIGKILL);
+                if (depth == 2) {
+                    pid_t p2 = fork();
+                    if (p2 < 0) { ev_error("fork depth 2"); _exit(3); }
+                    if (p2 > 0) { int st2; while (waitpid(p2, &st2, 0) < 0 && errno == EINTR) ; _exit(WIFEXITED(st2) ? WEXITSTATUS(st2) : 99); }
+                    prctl(PR_SET_PDEATHSIG, SIGKILL);
+                }
+                call_run(&cc);
+                emit_simple('c', "child-call-completed");
+                fflush(NULL);
+                _exit(0);
+            }
+            const char *status = "ok";
+            if (pid < 0) { ev_error("fork"); status = "forkfailed"; }
+            else {
+                int st = 0, waited = 0;
+                for (int ms = 0; ms < 10000; ms++) {
+                    pid_t w = waitpid(pid, &st, WNOHANG);
+                    if (w == pid) { waited = 1; break; }
+                    usleep(1000);
+                }
+                if (!waited) { kill(pid, SIGKILL); waitpid(pid, &st, 0); status = "timeout"; }
+                else if (WIFEXITED(st) && WEXITSTATUS(st) == 77) status = "deadlock";
+                else if (!(WIFEXITED(st) && WEXITSTATUS(st) == 0)) status = "abnormal";
+            }
+            int was_parked_at_end = S.is_parked();
+            S.release();
+            pthread_join(tid, NULL);
+            { ev_t e = {0}; ev_begin(&e, 'j'); ev_int(&e, k); ev_int(&e, parked); ev_int(&e, S.park_events()); ev_str(&e, status);
+              ev_int(&e, was_parked_at_end); ev_int(&e, depth); ev_end(&e); ev_free(&e); }
+            S.mode(0);
+            i += 2;
+            break; }
         case 'Z': { /* threads: args: nthreads, barrier(0/1); followed by X ops carrying tno */
             int nt = arg_int(&op->a[0]), bar = arg_int(&op->a[1]);
             thr_t *th = calloc(nt, sizeof *th);
@@ -949,7 +1072,7 @@ static void run_ops(op_t *ops, int nops)
             }
             pthread_barrier_t b; if (bar) pthread_barrier_init(&b, NULL, nt);
             pthread_t *tids = calloc(nt, sizeof *tids);
-            for (int t = 0; t < nt; t++) { th[t].bar = bar ? &b : NULL; pthread_create(&tids[t], NULL, thr_main, &th[t]); }
+            for (int t = 0; t < nt; t++) { th[t].bar = bar ? &b : NULL; th[t].coop_index = -1; pthread_create(&tids[t], NULL, thr_main, &th[t]); }
             for (int t = 0; t < nt; t++) pthread_join(tids[t], NULL);
             i = j - 1;
             break; }
@@ -958,8 +1081,14 @@ static void run_ops(op_t *ops, int nops)
     }
 }
 
+/* the harness's own lock must survive fork() from a multithreaded scenario (C10): classic atfork triple */
+static void ev_prepare(void) { pthread_mutex_lock(&ev_mutex); }
+static void ev_release(void) { pthread_mutex_unlock(&ev_mutex); }
+
 static void run_scenario(unsigned char *blob, size_t len)
 {
+    static int atfork_done;
+    if (!atfork_done) { atfork_done = 1; pthread_atfork(ev_prepare, ev_release, ev_release); }
     op_t *ops;
     int n = parse_ops(blob, len, &ops);
     rec_set_hook(the_hook);
